@@ -133,4 +133,12 @@ def parseUnixMode (s : Str) : Except ModeErr Nat := do
   let f3 ← flagAt s 8
   pure (a * 64 + b * 8 + c + f1 + f2 + f3)
 
+/-! ### the 12-hour clock of `dir`-style (IIS) listings: `%I:%M %p` -/
+
+/-- `%I` and `%p` as `strptime` combines them: 12 AM is hour 0, 12 PM is hour 12 -/
+def hour24 (h12 : Nat) (pm : Bool) : Nat := h12 % 12 + (if pm then 12 else 0)
+
+/-- how a `dir`-style listing writes hour `h` of the day: the `%I` field and whether the mark is PM -/
+def clock12 (h : Nat) : Nat × Bool := (if h % 12 = 0 then 12 else h % 12, decide (12 ≤ h))
+
 end Model.ListDate
